@@ -54,4 +54,33 @@ func Verif_C02_rpc_own_timeout() {
 	verifAssert(verifParent.Err() == nil, "rpc own timeout: the incoming context is still alive")
 	verifAssert(resp == nil && err != nil && status.Code(err) == codes.DeadlineExceeded, "rpc: when the server's own timeout fires the caller gets DeadlineExceeded and the handler's result is discarded")
 	verifReach("own-timeout")
+
+	// a later, healthy call through the SAME interceptor gets its own answer: whatever
+	// the abandoned handler of the timed-out call did afterwards (returned, failed,
+	// panicked) belongs to that call and to no other
+	verifParent = verifNewCtx(nil)
+	verifChild = nil
+	gate := make(chan struct{})
+	reply2 := &verifReply{n: 8}
+	ran2 := 0
+	handler2 := func(ctx context.Context, req interface{}) (interface{}, error) {
+		ran2++
+		<-gate // still working when the serving goroutine starts waiting for it
+		return reply2, nil
+	}
+	go func() {
+		verifYield()
+		verifYield()
+		close(gate)
+	}()
+	var resp2 interface{}
+	var err2 error
+	_, panicked2 := verifExpectPanic(func() {
+		resp2, err2 = UnaryCrashInterceptor(verifParent, "request-2", info, func(ctx context.Context, req interface{}) (interface{}, error) {
+			return timeout(ctx, req, info, handler2)
+		})
+	})
+	verifAssert(!panicked2 && ran2 == 1, "rpc: the later call's handler runs once, no panic escapes")
+	verifAssert(err2 == nil && resp2 == interface{}(reply2), "rpc: a later call that finishes within the timeout gets precisely its own handler's reply, whatever an earlier timed-out call's handler did afterwards")
+	verifReach("later-call")
 }
